@@ -11,6 +11,7 @@ mod c02;
 mod c19;
 mod c05;
 mod c06;
+mod c10;
 mod c12;
 mod c11;
 mod c04;
@@ -23,9 +24,17 @@ use common::*;
 
 fn main() {
   let args: Vec<String> = std::env::args().collect();
-  if args.len() < 5 && !(args.len() >= 2 && (args[1] == "eval" || args[1] == "fsm" || args[1] == "bc" || args[1] == "sess" || args[1] == "steps")) {
+  if args.len() < 5 && !(args.len() >= 2 && (args[1] == "eval" || args[1] == "doc" || args[1] == "fsm" || args[1] == "bc" || args[1] == "sess" || args[1] == "steps")) {
     eprintln!("usage: mvh <prop> <seed> <quick|thorough|replay> <outdir> [replay-file]");
     std::process::exit(2);
+  }
+  if args.len() >= 2 && args[1] == "doc" {
+    std::panic::set_hook(Box::new(|_| {}));
+    let mut text = String::new();
+    use std::io::Read;
+    std::io::stdin().read_to_string(&mut text).unwrap();
+    for l in text.lines() { if l.trim().is_empty() { continue; } let case = format!("doc\t{}", l); println!("{}\n=> {}", c10::source(&case), c10::exec(&case)); }
+    return;
   }
   if args.len() >= 2 && args[1] == "bc" {
     if std::env::var("MVH_LOUD").is_err() { std::panic::set_hook(Box::new(|_| {})); }
@@ -123,6 +132,7 @@ fn main() {
     "C14" => (c14::generate, c14::exec),
     "C16" => (c16::generate, c16::exec),
     "C06" => (c06::generate, c06::exec),
+    "C10" => (c10::generate, c10::exec),
     "C17" => (c17::generate, c17::exec),
     "C18" => (c18::generate, c18::exec),
     "C02" => (c02::generate, c02::exec),
